@@ -23,7 +23,9 @@ Definition madt_table : addtable :=
   {| at_name := [77; 65; 68; 84]; at_kind := KMadt; at_new := madt_new; at_entry := madt_addition;
      at_new_inv := madt_new_inv; at_sound := madt_addition_sound |}.
 
-Definition add_tables : list addtable := [madt_table].
+(* the other tables' records live in their own P files, which import this file's head; they are collected in
+   Proofs/Registry.v *)
+Definition add_tables_core : list addtable := [madt_table].
 
 (* every state reached by a constructor followed by any history satisfies the invariant *)
 Lemma addtable_reach (T : addtable) md c ops s0 s :
@@ -63,7 +65,6 @@ Record walktable := {
 Definition madt_walk : walktable :=
   {| wt_table := madt_table; wt_ehdr := H_u8_u8; wt_self := madt_addition_self; wt_new_empty := madt_new_empty |}.
 
-Definition walk_tables : list walktable := [madt_walk].
 
 Lemma forall_self_tys h (es : list (list N)) :
   Forall (fun e => exists ty, self_describing h e ty) es -> exists tys, Forall2 (self_describing h) es tys.
